@@ -5,8 +5,10 @@ import (
 	"context"
 	"fmt"
 	"io"
+	"runtime"
 	"sync"
 	"testing"
+	"testing/synctest"
 	"time"
 
 	"nhooyr.io/websocket"
@@ -53,6 +55,7 @@ func genC05(rt *rapid.T) c05Case {
 			m := c16Msg{Len: rapid.SampledFrom([]int{8, 100, 4000, 4096, 9000, 30000}).Draw(rt, "len"), Gap: dur("gap")}
 			m.UseWriter = rapid.Bool().Draw(rt, "useWriter")
 			m.Timeout = rapid.SampledFrom([]time.Duration{0, 0, 0, 50 * time.Millisecond, 2 * time.Second}).Draw(rt, "writerTimeout")
+			m.YieldAt = rapid.SampledFrom([]int{0, 0, 1, 2, 3, 4, 5, 6, 8}).Draw(rt, "yieldAt")
 			if m.UseWriter {
 				for k := rapid.IntRange(1, 4).Draw(rt, "nChunks"); k > 0; k-- {
 					m.Chunks = append(m.Chunks, rapid.SampledFrom([]int{0, 1, 150, 4096, 6000}).Draw(rt, "chunk"))
@@ -84,6 +87,41 @@ func genC05(rt *rapid.T) c05Case {
 	c.InComp = rapid.Bool().Draw(rt, "inComp")
 	c.PeerPings = rapid.IntRange(0, 3).Draw(rt, "peerPings")
 	return c
+}
+
+// yieldCtx is a context whose Done method, on its k-th call, yields the processor
+// a few hundred times before answering. The library consults ctx.Done() wherever
+// it waits for one of its locks or for the transport, so this is a harness-owned
+// preemption point exactly there, without any hook in the library. (It must not
+// sleep: the call sites hold library locks, and in a synctest bubble virtual time
+// cannot advance while another goroutine waits on a sync.Mutex - such waits are
+// not durable - which froze the clock and deadlocked the case.)
+type yieldCtx struct {
+	context.Context
+	mu    *sync.Mutex
+	calls *int
+	at    int
+}
+
+func (y yieldCtx) Done() <-chan struct{} {
+	y.mu.Lock()
+	*y.calls++
+	hit := *y.calls == y.at
+	y.mu.Unlock()
+	if hit {
+		for i := 0; i < 300; i++ {
+			runtime.Gosched()
+		}
+	}
+	return y.Context.Done()
+}
+
+func newYieldCtx(parent context.Context, at int) context.Context {
+	if at <= 0 {
+		return parent
+	}
+	n := 0
+	return yieldCtx{Context: parent, mu: &sync.Mutex{}, calls: &n, at: at}
 }
 
 type c05Result struct {
@@ -222,10 +260,10 @@ func runC05(t fataler, c c05Case) (string, c05Result) {
 				recs = append(recs, r)
 				mu.Unlock()
 				var err error
-				wctx := base
+				wctx := newYieldCtx(base, m.YieldAt)
 				if m.Timeout > 0 {
 					var cancel context.CancelFunc
-					wctx, cancel = context.WithTimeout(base, m.Timeout)
+					wctx, cancel = context.WithTimeout(wctx, m.Timeout)
 					defer cancel()
 				}
 				if !m.UseWriter {
@@ -446,4 +484,66 @@ func TestC05(t *testing.T) {
 			rt.Fatalf("C05 %+v: %s", c, msg)
 		}
 	})
+}
+
+// Regression replay (finding D17): Close discards the rest of a message that a
+// racing reader is in the middle of; when the handshake wait ends before the
+// connection is closed (here: the peer answers the Close frame with a protocol
+// violation), the reader must fail, not go on with frame headers taken for payload.
+func TestC05Regress(t *testing.T) {
+	bad := ""
+	for iter := 0; iter < 400 && bad == ""; iter++ {
+		synctest.Test(t, func(t *testing.T) {
+			e := newEnv(t)
+			defer e.Teardown()
+			lc, err := e.open(connSpec{Client: iter%2 == 1})
+			if err != nil {
+				bad = err.Error()
+				return
+			}
+			p := lc.Peer
+			payload := tagged(9, iter, 12000)
+			p.onFrame = func(f ref.Frame) {
+				if f.Opcode == ref.OpClose {
+					p.send(ref.Frame{Fin: true, Opcode: 0x3, Payload: []byte("violation instead of an echo")})
+					p.send(ref.Frame{Fin: false, Opcode: ref.OpCont, Payload: payload[4000:8000]})
+					p.send(ref.Frame{Fin: true, Opcode: ref.OpCont, Payload: payload[8000:]})
+				}
+			}
+			p.start(e)
+			p.send(ref.Frame{Fin: false, Opcode: ref.OpBinary, Payload: payload[:4000]})
+			var got []byte
+			started := make(chan struct{})
+			rd := e.Call(func() {
+				_, r, err := lc.C.Reader(context.Background())
+				if err != nil {
+					return
+				}
+				buf := make([]byte, 64)
+				for i := 0; ; i++ {
+					n, err := r.Read(buf)
+					got = append(got, buf[:n]...)
+					if i == 10 {
+						close(started)
+					}
+					if err != nil {
+						return
+					}
+				}
+			})
+			<-started
+			cd := e.Call(func() { lc.C.Close(websocket.StatusNormalClosure, "") })
+			if !within(cd, 30*time.Second) || !within(rd, 30*time.Second) {
+				bad = "Close or the racing reader did not return"
+				return
+			}
+			if !bytes.HasPrefix(payload, got) {
+				bad = fmt.Sprintf("iteration %d: the reader racing with Close returned %d bytes that are not a prefix of its message (first difference at %d)", iter, len(got), firstDiff(got, payload))
+			}
+		})
+	}
+	evid.For("C05").Case(true, "regress|D17", "regression-replay")
+	if bad != "" {
+		failCase(t, "C05", map[string]any{"regress": "D17-reader-racing-close-discard"}, "%s", bad)
+	}
 }
